@@ -41,11 +41,9 @@ func (a *otherAddr) Network() string { return "other" }
 func (a *otherAddr) String() string  { return "other:" + strconv.Itoa(a.id) }
 
 type srvEvent struct {
-	kind  byte // 'd' datagram, 'e' read error, 'c' Close while reading
-	data  []byte
-	peer  net.Addr
-	tag   byte   // serve6 line: 'a' accepted / 'r' rejected (as generated); serve4: 'd'
-	canon string // serve6 'a': canonical re-encoding as generated
+	kind byte // 'd' datagram, 'e' read error, 'c' Close while reading
+	data []byte
+	peer net.Addr
 }
 
 func peerCanon(a net.Addr) string {
@@ -88,12 +86,6 @@ func eventString(e srvEvent) string {
 	case 'c':
 		return "c"
 	}
-	switch e.tag {
-	case 'a':
-		return "a:" + hx(e.data) + ":" + e.canon + ":" + peerCanon(e.peer)
-	case 'r':
-		return "r:" + hx(e.data) + ":" + peerCanon(e.peer)
-	}
 	return "d:" + hx(e.data) + ":" + peerCanon(e.peer)
 }
 
@@ -121,10 +113,8 @@ func parseScenario(args []string) (wait int, evs []srvEvent) {
 			evs = append(evs, srvEvent{kind: 'e'})
 		case "c":
 			evs = append(evs, srvEvent{kind: 'c'})
-		case "d", "r":
-			evs = append(evs, srvEvent{kind: 'd', tag: t[0][0], data: unhx(t[1]), peer: parsePeerToks(t[2:])})
-		case "a":
-			evs = append(evs, srvEvent{kind: 'd', tag: 'a', data: unhx(t[1]), canon: t[2], peer: parsePeerToks(t[3:])})
+		case "d":
+			evs = append(evs, srvEvent{kind: 'd', data: unhx(t[1]), peer: parsePeerToks(t[2:])})
 		default:
 			panic("harness: bad event " + a)
 		}
@@ -293,13 +283,10 @@ func canon4(m *dhcpv4.DHCPv4) string {
 func canon6(d dhcpv6.DHCPv6) (s string) {
 	defer func() {
 		if e := recover(); e != nil {
-			s = "nil"
+			s = "msgnil" // typed nil pointer in the interface
 		}
 	}()
-	if d == nil {
-		return "nil"
-	}
-	return hx(d.ToBytes())
+	return sxMsg6(d)
 }
 
 func samePeerObj(a, b net.Addr) bool {
@@ -818,20 +805,7 @@ func genScenario(r *Rng, v6, thorough, inDomainOnly bool) (wait int, evs []srvEv
 			}
 			tagset["malformed"] = true
 		}
-		ev := srvEvent{kind: 'd', tag: 'd', data: data, peer: peer}
-		if v6 {
-			cut := data
-			if len(cut) > srvReadBuf {
-				cut = cut[:srvReadBuf]
-			}
-			ev.tag = 'r'
-			func() {
-				defer func() { recover() }()
-				if d, err := dhcpv6.FromBytes(cut); err == nil {
-					ev.tag, ev.canon = 'a', hx(d.ToBytes())
-				}
-			}()
-		}
+		ev := srvEvent{kind: 'd', data: data, peer: peer}
 		if errSeen {
 			tagset["reads-after-error"] = true
 		}
@@ -873,11 +847,9 @@ func enumServer(v6 bool) func(emit func(string)) {
 	return func(emit func(string)) {
 		r := NewRng(77)
 		var good, bad []byte
-		var goodCanon string
 		if v6 {
 			d, _ := srv_genMsg6(r)
 			good, bad = d.ToBytes(), []byte{1, 2}
-			goodCanon = hx(good)
 		} else {
 			good, _ = genGood4(r)
 			bad = good[:100]
@@ -886,13 +858,13 @@ func enumServer(v6 bool) func(emit func(string)) {
 			port := 1000 + i
 			switch letter {
 			case 0:
-				return srvEvent{kind: 'd', tag: map[bool]byte{true: 'a', false: 'd'}[v6], canon: goodCanon, data: good, peer: &net.UDPAddr{IP: nil, Port: port}}
+				return srvEvent{kind: 'd', data: good, peer: &net.UDPAddr{IP: nil, Port: port}}
 			case 1:
-				return srvEvent{kind: 'd', tag: map[bool]byte{true: 'a', false: 'd'}[v6], canon: goodCanon, data: good, peer: &net.UDPAddr{IP: net.IP{10, 0, 0, byte(i + 1)}, Port: port}}
+				return srvEvent{kind: 'd', data: good, peer: &net.UDPAddr{IP: net.IP{10, 0, 0, byte(i + 1)}, Port: port}}
 			case 2:
-				return srvEvent{kind: 'd', tag: map[bool]byte{true: 'r', false: 'd'}[v6], data: bad, peer: &net.UDPAddr{IP: net.IP{10, 0, 0, byte(i + 1)}, Port: port}}
+				return srvEvent{kind: 'd', data: bad, peer: &net.UDPAddr{IP: net.IP{10, 0, 0, byte(i + 1)}, Port: port}}
 			case 3:
-				return srvEvent{kind: 'd', tag: map[bool]byte{true: 'r', false: 'd'}[v6], data: []byte{}, peer: &net.UDPAddr{IP: net.IP{0, 0, 0, 0}, Port: port}}
+				return srvEvent{kind: 'd', data: []byte{}, peer: &net.UDPAddr{IP: net.IP{0, 0, 0, 0}, Port: port}}
 			case 4:
 				return srvEvent{kind: 'e'}
 			}
